@@ -6,13 +6,14 @@ TF = 'enspara/tpt/tpt.py'
 MUT = [('inplace-populations', TF, "    fluxes[(np.arange(n_states), np.arange(n_states))] = np.zeros(n_states)", "    populations *= reverse_committors\n    fluxes[(np.arange(n_states), np.arange(n_states))] = np.zeros(n_states)"),
        ('diagonal-kept', TF, "    fluxes[(np.arange(n_states), np.arange(n_states))] = np.zeros(n_states)\n", ""),
        ('net-sign', TF, "    net_fluxes = fluxes - fluxes.T", "    net_fluxes = fluxes.T - fluxes"),
-       ('rev-not-complement', TF, "    reverse_committors = 1 - forward_committors", "    reverse_committors = forward_committors")]
+       ('rev-not-complement', TF, "    reverse_committors = 1 - forward_committors", "    reverse_committors = forward_committors"),
+       ('density-without-backward-committor', TF, "    densities = populations * forward_committors * reverse_committors", "    densities = populations * forward_committors")]
 
 
 def run(tier, seed, update_lock=False):
     R = Run('C08', 'other', tier, seed)
     reg = CT.registry()
-    u = Unit('tpt-flux[dense]', reg, keys=[CT.F + '_get_data_from_tprob', CT.F + 'reactive_fluxes', CT.F + 'net_fluxes'], mutants=MUT)
+    u = Unit('tpt-flux[dense]', reg, keys=[CT.F + '_get_data_from_tprob', CT.F + 'reactive_fluxes', CT.F + 'net_fluxes', CT.F + 'reactive_populations'], mutants=MUT)
     R.prove(u)
     R.canary_check(u)
     R.lemma('Flux.lean', 'flux definition + detailed balance + row-stochastic + committor equation => net flux into = out of every intermediate state')
